@@ -51,201 +51,9 @@ func isTransformerType(t types.Type) bool {
 	return isNamed(t, modPath+"/proj", "Transformer")
 }
 
-func c10structure(c *Ctx, info *types.Info, tn string, m *types.Func, fd *ast.FuncDecl) {
-	name := c.P.FuncName(m)
-	recv := receiverVar(info, fd)
-	params := paramVars(info, fd.Type)
-	if recv == nil || len(params) != 1 || params[0] == nil || !isTransformerType(params[0].Type()) {
-		c.Unk("C10.R4", name, fd.Pos(), "unexpected signature")
-		return
-	}
-	t := params[0]
-	sc := newFnScope(info, fd.Body)
-	var problems []string
-	var ppos token.Pos = fd.Pos()
-	prob := func(pos token.Pos, f string) {
-		if len(problems) == 0 {
-			ppos = pos
-		}
-		problems = append(problems, f)
-	}
-	// (a) path facts: t==nil / t!=nil at returns
-	nilReturns, nonNilOKReturns := 0, 0
-	cl := &FactsClient{}
-	cl.OnBranch = func(cond ast.Expr, truth bool, s Facts) Facts {
-		for _, at := range conjuncts(cond, truth) {
-			if b, ok := unparen(at.E).(*ast.BinaryExpr); ok && (b.Op == token.EQL || b.Op == token.NEQ) {
-				var o types.Object
-				if isNilConst(info, b.Y) {
-					o = objOf(info, b.X)
-				} else if isNilConst(info, b.X) {
-					o = objOf(info, b.Y)
-				}
-				if o == t {
-					isNil := (b.Op == token.EQL) == at.Truth
-					if isNil {
-						s["tnil"] = true
-					} else {
-						s["tnonnil"] = true
-					}
-				}
-			}
-		}
-		return s
-	}
-	seen := map[*ast.ReturnStmt]bool{}
-	cl.OnReturn = func(r *ast.ReturnStmt, s Facts) {
-		if r == nil || seen[r] {
-			return
-		}
-		seen[r] = true
-		if len(r.Results) == 1 {
-			// delegation: return x.Transform(t)
-			if s["tnil"] {
-				prob(r.Pos(), "nil transformer is not answered with the receiver itself")
-			} else if s["tnonnil"] {
-				nonNilOKReturns++
-				c10delegation(c, info, sc, recv, t, r, prob)
-			} else {
-				prob(r.Pos(), "return reached without testing the transformer for nil")
-			}
-			return
-		}
-		if len(r.Results) != 2 {
-			prob(r.Pos(), "unexpected result arity")
-			return
-		}
-		if s["tnil"] {
-			nilReturns++
-			if objOf(info, r.Results[0]) != recv || !isNilConst(info, r.Results[1]) {
-				prob(r.Pos(), "nil transformer must return (receiver, nil), got `"+src(r)+"`")
-			}
-			return
-		}
-		if !s["tnonnil"] {
-			prob(r.Pos(), "return `"+src(r)+"` reached without testing the transformer for nil (a nil transformer would be called)")
-			return
-		}
-		if isNilConst(info, r.Results[0]) {
-			return // error path
-		}
-		nonNilOKReturns++
-		o := objOf(info, r.Results[0])
-		if o == recv {
-			prob(r.Pos(), "non-nil transformer returns the receiver itself")
-			return
-		}
-		if o == nil {
-			prob(r.Pos(), "result `"+src(r.Results[0])+"` is not a local fresh value")
-			return
-		}
-		fresh := false
-		for _, d := range sc.defs[o] {
-			if d == nil {
-				continue
-			}
-			switch x := unparen(d).(type) {
-			case *ast.CallExpr:
-				if builtinName(info, x) == "make" {
-					fresh = true
-					// make(T, len(recv))
-					if len(x.Args) >= 2 {
-						a := sc.aff(x.Args[1])
-						if !(a.ok && a.K == 0 && a.Of != nil && objOf(info, a.Of) == recv) {
-							prob(x.Pos(), "result allocated with length `"+src(x.Args[1])+"`, not len(receiver)")
-						}
-					}
-					if rt := info.TypeOf(x.Args[0]); rt != nil && !types.Identical(rt, recv.Type()) {
-						prob(x.Pos(), "result type "+typeName(rt)+" differs from receiver type "+typeName(recv.Type()))
-					}
-				}
-			case *ast.CompositeLit:
-				fresh = true
-				if rt := info.TypeOf(x); rt != nil && !types.Identical(rt, recv.Type()) {
-					prob(x.Pos(), "result type "+typeName(rt)+" differs from receiver type")
-				}
-			}
-		}
-		if !fresh {
-			prob(r.Pos(), "result `"+o.Name()+"` is not freshly allocated in this call")
-		}
-	}
-	fl := &Flow[Facts]{C: cl, Info: info}
-	fl.Run(fd.Body, Facts{})
-	if len(fl.Unsupported) > 0 {
-		c.Unk("C10.R4", name, fl.Unsupported[0].Pos(), "unsupported control flow")
-		return
-	}
-	if nilReturns == 0 {
-		prob(fd.Pos(), "no `t == nil` path returning the receiver")
-	}
-	if nonNilOKReturns == 0 {
-		prob(fd.Pos(), "no success return for a non-nil transformer")
-	}
-	// (b) no store into the receiver
-	ast.Inspect(fd.Body, func(n ast.Node) bool {
-		switch n := n.(type) {
-		case *ast.AssignStmt:
-			for _, l := range n.Lhs {
-				if _, isId := unparen(l).(*ast.Ident); isId {
-					continue
-				}
-				if rootObj(info, l) == recv {
-					prob(n.Pos(), "store into the receiver: `"+src(n)+"`")
-				}
-			}
-		case *ast.IncDecStmt:
-			if rootObj(info, n.X) == recv {
-				prob(n.Pos(), "store into the receiver")
-			}
-		}
-		return true
-	})
-	// (c) transformer calls: (w.X, w.Y, err) = t(v.X, v.Y)
-	ast.Inspect(fd.Body, func(n ast.Node) bool {
-		as, ok := n.(*ast.AssignStmt)
-		if !ok || len(as.Rhs) != 1 {
-			return true
-		}
-		call, ok := unparen(as.Rhs[0]).(*ast.CallExpr)
-		if !ok || objOf(info, call.Fun) != t {
-			return true
-		}
-		if len(call.Args) != 2 || len(as.Lhs) != 3 {
-			prob(as.Pos(), "transformer call shape not recognised")
-			return true
-		}
-		ax, ay := selParts(info, call.Args[0]), selParts(info, call.Args[1])
-		lx, ly := selParts(info, as.Lhs[0]), selParts(info, as.Lhs[1])
-		if ax.obj == nil || ax.obj != ay.obj || ax.field != "X" || ay.field != "Y" {
-			prob(call.Pos(), "transformer called as `"+src(call)+"`, want t(v.X, v.Y) of one input vertex")
-		}
-		if lx.obj == nil || lx.obj != ly.obj || lx.field != "X" || ly.field != "Y" {
-			prob(as.Pos(), "transformer results stored as `"+src(as)+"`, want (w.X, w.Y, err)")
-		}
-		return true
-	})
-	// (d) identity-index copy for slice receivers
-	if _, isSlice := recv.Type().Underlying().(*types.Slice); isSlice {
-		c10copy(c, info, sc, recv, fd, prob)
-	}
-	if len(problems) == 0 {
-		c.OK("C10.R4", name, fd.Pos(), "nil→receiver, fresh result, identity copy, receiver untouched")
-	} else {
-		c.Bad("C10.R4", name, ppos, "%s", problems[0])
-	}
-}
-
 type selPart struct {
 	obj   types.Object
 	field string
-}
-
-func selParts(info *types.Info, e ast.Expr) selPart {
-	if sel, ok := unparen(e).(*ast.SelectorExpr); ok {
-		return selPart{objOf(info, sel.X), sel.Sel.Name}
-	}
-	return selPart{}
 }
 
 // rootObj returns the variable at the root of an lvalue like x[i].f[j].
@@ -275,139 +83,6 @@ func rootObj(info *types.Info, e ast.Expr) types.Object {
 func identOf(e ast.Expr) *ast.Ident {
 	id, _ := unparen(e).(*ast.Ident)
 	return id
-}
-
-// c10delegation handles `return x.Transform(t)`: x must be a fresh value built
-// from the receiver (today: *Bounds → rectangle Polygon), t passed unchanged.
-func c10delegation(c *Ctx, info *types.Info, sc *fnScope, recv, t types.Object, r *ast.ReturnStmt, prob func(token.Pos, string)) {
-	call, ok := unparen(r.Results[0]).(*ast.CallExpr)
-	if !ok {
-		prob(r.Pos(), "single-result return is not a delegation call")
-		return
-	}
-	f := callee(info, call)
-	if f == nil || f.Name() != "Transform" || len(call.Args) != 1 || objOf(info, call.Args[0]) != t {
-		prob(r.Pos(), "delegation does not pass the transformer to a Transform method")
-		return
-	}
-	sel, _ := unparen(call.Fun).(*ast.SelectorExpr)
-	if sel == nil {
-		prob(r.Pos(), "delegation shape not recognised")
-		return
-	}
-	o := objOf(info, sel.X)
-	var lit *ast.CompositeLit
-	if o != nil {
-		if d := sc.singleDef(o); d != nil {
-			var linfo *types.Info
-			var lrecv types.Object
-			if lit, linfo, lrecv = litThroughHelper(c.P, info, d, recv); lit != nil {
-				info, recv = linfo, lrecv
-			}
-		}
-	} else {
-		var linfo *types.Info
-		var lrecv types.Object
-		if lit, linfo, lrecv = litThroughHelper(c.P, info, sel.X, recv); lit != nil {
-			info, recv = linfo, lrecv
-		}
-	}
-	if lit == nil {
-		prob(r.Pos(), "delegate receiver is not a fresh composite literal")
-		return
-	}
-	if !isNamed(info.TypeOf(lit), modPath, "Polygon") {
-		prob(lit.Pos(), "a *Bounds must become a Polygon")
-		return
-	}
-	if msg := rectangleRing(info, lit, recv); msg != "" {
-		prob(lit.Pos(), msg)
-	}
-}
-
-// rectangleRing checks that a Polygon literal {{c0,c1,c2,c3}} lists the four
-// corners of bounds b in ring order.  Returns "" when it does.
-func rectangleRing(info *types.Info, lit *ast.CompositeLit, b types.Object) string {
-	if len(lit.Elts) != 1 {
-		return "rectangle polygon must have exactly one ring"
-	}
-	ring, ok := unparen(lit.Elts[0]).(*ast.CompositeLit)
-	if !ok || len(ring.Elts) < 4 || len(ring.Elts) > 5 {
-		return "rectangle ring must list 4 (or 5, closed) corners"
-	}
-	type corner struct{ x, y string }
-	var cs []corner
-	side := func(e ast.Expr, axis string) string {
-		// b.Min.X / b.Max.X
-		s1, ok := unparen(e).(*ast.SelectorExpr)
-		if !ok || s1.Sel.Name != axis {
-			return ""
-		}
-		s2, ok := unparen(s1.X).(*ast.SelectorExpr)
-		if !ok || objOf(info, s2.X) != b {
-			return ""
-		}
-		return s2.Sel.Name
-	}
-	for _, e := range ring.Elts {
-		e = unparen(e)
-		if s, ok := e.(*ast.SelectorExpr); ok && objOf(info, s.X) == b && (s.Sel.Name == "Min" || s.Sel.Name == "Max") {
-			cs = append(cs, corner{s.Sel.Name, s.Sel.Name})
-			continue
-		}
-		cl, ok := e.(*ast.CompositeLit)
-		if !ok || len(cl.Elts) != 2 {
-			return "corner `" + src(e) + "` not recognised"
-		}
-		var xe, ye ast.Expr
-		for i, el := range cl.Elts {
-			if kv, ok := el.(*ast.KeyValueExpr); ok {
-				switch src(kv.Key) {
-				case "X":
-					xe = kv.Value
-				case "Y":
-					ye = kv.Value
-				}
-			} else if i == 0 {
-				xe = el
-			} else {
-				ye = el
-			}
-		}
-		if xe == nil || ye == nil {
-			return "corner `" + src(e) + "` not recognised"
-		}
-		cx, cy := side(xe, "X"), side(ye, "Y")
-		if cx == "" || cy == "" {
-			return "corner `" + src(e) + "` does not take X from an X bound and Y from a Y bound of the receiver"
-		}
-		cs = append(cs, corner{cx, cy})
-	}
-	if len(cs) == 5 {
-		if cs[4] != cs[0] {
-			return "fifth corner does not close the ring"
-		}
-		cs = cs[:4]
-	}
-	seen := map[corner]bool{}
-	for i, k := range cs {
-		if seen[k] {
-			return "corner repeated: the ring does not visit all four corners"
-		}
-		seen[k] = true
-		n := cs[(i+1)%4]
-		if (k.x != n.x) == (k.y != n.y) {
-			return "consecutive corners are not adjacent (ring would self-intersect)"
-		}
-	}
-	return ""
-}
-
-// c10copy: every store into the result structure uses the indices of enclosing
-// full-range loops over the corresponding receiver level, and stores a value
-// derived from that element.
-func c10copy(c *Ctx, info *types.Info, sc *fnScope, recv types.Object, fd *ast.FuncDecl, prob func(token.Pos, string)) {
-	copyLoops(info, sc, recv, fd, false, prob)
 }
 
 // copyLoops checks an element-wise copy from the nested collection src into a
